@@ -78,6 +78,8 @@ class C07(EvalFamProp):
         obs['objids'] = ids
 
     def impl(self, case):
+        if case.get('fam') == 'inc':
+            return impl_inc(case, self.WORLD)
         return run_case(case['docs'], self.WORLD, tuple(case.get('style', ['flow', 0, 0])), extra=self._objids)
 
     def gen_cases(self, rng, n, tier):
@@ -99,15 +101,40 @@ class C07(EvalFamProp):
         # implicit f-strings under !unsafe / !metadata{{'safe': False}} tags and in unsafe sources (D49): oracle-only
         for _ in range(max(2, n // 10)):
             out.append(gen_fstr_case(rng))
+        # included files reached through an include node that is unsafe (unsafe source, own metadata, below !unsafe, the whole
+        # document): nothing of the file may run (S6-C07)
+        for _ in range(max(3, n // 8)):
+            out.append(gen_inc_case(rng))
         return out
 
     def model_requests(self, case):
+        if case.get('fam') == 'inc':
+            return [inc_request(case, self.WORLD)]
         return [] if case.get('fam') == 'fstr' else super().model_requests(case)
 
     def model_obs(self, case, answers):
+        if case.get('fam') == 'inc':
+            return answers[0]
         return {'err': 'unsupported'} if case.get('fam') == 'fstr' else super().model_obs(case, answers)
 
+    def compare(self, case, io, mo):
+        if case.get('fam') == 'inc':
+            if 'bad' in mo:
+                return 'driver rejected the request: ' + str(mo['bad'])
+            if any(mo[k].get('err') == 'unsupported' for k in ('stages', 'tree', 'cfg')):
+                return 'SKIP'
+            d = first_diff(io['tree'], canon_model_answer(mo['tree']))
+            if d:
+                return 'merged tree (with included files): ' + d
+            d = compare_config(io['cfg'], mo['cfg'])
+            if d in ('SKIP', None) or d.startswith('KNOWN:'):
+                return d
+            return 'evaluated config (with included files): ' + d
+        return super().compare(case, io, mo)
+
     def oracle(self, case, io, ans):
+        if case.get('fam') == 'inc':
+            return oracle_inc(case, io)
         nodes = io.get('nodes')
         if nodes is None:
             return None
@@ -274,3 +301,106 @@ def gen_fstr_case(rng):
     return {'docs': docs, 'style': ['block', 0, 0], 'fam': 'fstr'}
 
 PROP = C07()
+
+
+# ------------------------------------------------------------------------------------------------
+# family `inc`: dynamic nodes of an included file, the include node unsafe in one of four ways
+# ------------------------------------------------------------------------------------------------
+import tempfile, shutil, posixpath
+INC_VBASE = os.path.realpath(tempfile.gettempdir())
+INC_VROOT = posixpath.join(INC_VBASE, 'AYC07ROOT')
+
+def gen_inc_case(rng):
+    call = lambda f, items, **kw: M(items, tag={'k': 'call', 'f': f}, **kw)
+    how = rng.choice(['source', 'source', 'meta', 'above', 'root', 'file', 'none', 'none'])
+    mk = rng.randrange(8000, 8999)
+    inner = [('r', call('rec.g', {'p': S(mk)})), ('v', S(mk + 1000))]
+    if rng.random() < 0.4:
+        inner.append(('e', Stext('T(%d)' % (mk + 2000), 'eval')))
+    if rng.random() < 0.3:
+        inner = [('sub', M(inner))]
+    fdoc = M(inner, kw={'safe': False} if how == 'file' else None)
+    files = [['inc1.yaml', [fdoc]]]
+    if rng.random() < 0.3:
+        files.append(['two.yaml', [M([('w', call('rec.g', {'q': S(mk + 3000)}))])]])
+    names = [f for f, _ in files]
+    inc = Stext(names[0], 'include') if len(names) == 1 and rng.random() < 0.6 else Q([S(nm) for nm in names], tag='include')
+    if how == 'meta':
+        inc = dict(inc, kw={'safe': False}, t=dict(inc['t']))
+    if how == 'root':
+        docs = [{'raw': M([('k', S(1))])}, {'raw': inc, 'safe': False}]
+    else:
+        holder = M([('x', inc)], kw={'safe': False}) if how == 'above' else inc
+        items = [('k', S(1)), ('i', holder)]
+        if rng.random() < 0.5:
+            items.append(('c', call('rec.f', {0: Stext('k', 'xref')})))
+        docs = [{'raw': M(items)}]
+        if how == 'source':
+            docs[0]['safe'] = False
+            if rng.random() < 0.4:
+                docs.append({'raw': M([('k', S(2))])})
+    return {'fam': 'inc', 'how': how, 'files': files, 'docs': docs, 'style': ['flow', 0, 0], 'markers': [mk, mk + 1000, mk + 2000, mk + 3000]}
+
+def inc_layout(case, root):
+    files = {posixpath.join(root, nm): docs for nm, docs in case['files']}
+    sources = [{'raw': [d['raw']], 'filename': posixpath.join(root, 'main%d.yaml' % i), 'safe': d.get('safe')} for i, d in enumerate(case['docs'])]
+    return files, sources
+
+def inc_request(case, world):
+    files, sources = inc_layout(case, INC_VROOT)
+    return {'op': 'c06', 'fs': [[f, d] for f, d in sorted(files.items())], 'cwd': INC_VROOT, 'sources': sources, 'world': world}
+
+def impl_inc(case, world):
+    from awesomeyaml.builder import Builder
+    from awesomeyaml.config import Config
+    from evalrun import WorldImpl, conv_val, renumber
+    from props.c06 import classify_c06, render_file
+    style = case.get('style', ['flow', 0, 0])
+    real = os.path.realpath(tempfile.mkdtemp(prefix='ayc07_', dir=INC_VBASE))
+    old = os.getcwd()
+    res = {}
+    try:
+        files, sources = inc_layout(case, real)
+        for f, docs in files.items():
+            with open(f, 'w') as fh:
+                fh.write(render_file(docs, style))
+        os.chdir(real)
+        with WorldImpl(world) as w:
+            try:
+                b = Builder()
+                for s_ in sources:
+                    b.add_source(render_file(s_['raw'], style), raw_yaml=True, filename=s_['filename'], safe=s_.get('safe'))
+                root = b.build()
+                res['tree'] = {'ok': dump_node(root)}
+                try:
+                    cfg = Config(root, eval_ctx=EvalContext(eval_symbols=w.syms))
+                    res['cfg'] = {'ok': renumber(conv_val(cfg, w, {})), 'log': list(w.log)}
+                except RecursionError:
+                    res['cfg'] = {'err': 'recursion', 'log': list(w.log)}
+                except Exception as e:  # noqa
+                    res['cfg'] = dict(classify_c06(e), log=list(w.log))
+            except Exception as e:  # noqa
+                c = classify_c06(e)
+                res = {'tree': c, 'cfg': dict(c, log=list(w.log))}
+    finally:
+        os.chdir(old)
+        shutil.rmtree(real, ignore_errors=True)
+    return json.loads(json.dumps(res).replace(real, INC_VROOT))
+
+def oracle_inc(case, io):
+    how = case.get('how')
+    log = io['cfg'].get('log', [])
+    if how == 'none':
+        if 'ok' not in io['cfg']:
+            return f'a safe include of a safe file must build: {json.dumps({k: v for k, v in io["cfg"].items() if k != "log"})[:160]}'
+        if 'call:rec.g' not in log:
+            return 'the dynamic node of a safely included file did not run'
+        return None
+    # the include node is unsafe: whatever the included file holds is unsafe content, none of its dynamic nodes may run
+    if 'call:rec.g' in log:
+        return f'the !call of a file included by an unsafe !include node ({how}) was executed'
+    if 'eval' in log:
+        return f'the !eval of a file included by an unsafe !include node ({how}) was executed'
+    if 'ok' in io['cfg']:
+        return f'build succeeded although the dynamic nodes of a file included by an unsafe !include node ({how}) survive'
+    return None
